@@ -62,7 +62,7 @@ class SymWave:
                             eng.assume(v >= 0, v <= 100)
                             self.dv[key] = v
                         d[k, l, p, q] = T(0, self.dv[key])
-        self.w = w = CLS[cls](c, d, sims=1, c_caps=caps, **opts)
+        self.w = w = CLS[cls](c, d, sims=1, c_caps=caps_of(c, caps), **opts)
         w.c = lift_T(np.asarray(w.c))
         s = np.zeros(np.asarray(w.s).shape, dtype=object)
         self.tv = tvars if tvars is not None else {}
@@ -93,7 +93,7 @@ def concrete_wave(cls, c, caps, stim, opts, dvals, tvals, ndata=1, capture_time=
     nl = len(c.lines)
     d = np.zeros((ndata, nl, 2, 2), dtype=np.float32)
     for (k, l, p, q), v in dvals.items(): d[k, l, p, q] = v
-    w = CLS[cls](c, d, sims=1, c_caps=caps, **opts)
+    w = CLS[cls](c, d, sims=1, c_caps=caps_of(c, caps), **opts)
     for i, v in stim.items():
         w.s[0, i, 0], w.s[2, i, 0] = VAL[v]
         w.s[1, i, 0] = tvals.get(i, 0.0)
@@ -152,6 +152,17 @@ def boundary_job(job):
 
 
 # ------------------------------------------------------------------------------------------------ end-to-end
+
+E6 = netlist.NL('e6', [('a', 'in'), ('b', 'in'), ('c', 'in'), ('d', 'in'), ('y', 'out')],
+                [('g1', 'XNOR4', ['x'], ['a', 'b', 'c', 'd']), ('ff', 'DFF', ['q', None], ['x']), ('g2', 'INV1', ['y'], ['x']), ('g3', 'BUF1', [None], ['q'])])
+
+
+def caps_of(c, caps):
+    """capacity argument: int, or ('stem', big, small): lines driven by cells get `big`, all other lines `small`"""
+    if not isinstance(caps, (tuple, list)): return caps
+    _, big, small = caps
+    return [big if (i < len(c.lines) and c.lines[i].driver.kind not in ('__fork__', 'input')) else small for i in range(len(c.lines) + 3)]
+
 
 E2E_NLS = [
     netlist.NL('e1', [('a', 'in'), ('b', 'in'), ('z', 'out'), ('y', 'out')], [('g1', 'AND2', ['x'], ['a', 'b']), ('g2', 'INV1', ['z'], ['x']), ('g3', 'XOR2', ['y'], ['x', 'a'])]),
@@ -307,6 +318,9 @@ def e2e_job(job):
 
 
 def replay(data):
+    if data['mode'] == 'glue':
+        r = glue_job((data['recipe'], data['reuse'], data['strip']))
+        return bool(r.violations), r.violations[0]['what'] if r.violations else 'ok'
     if data['mode'] == 'boundary':
         nl = netlist.NL('b', [('a', 'in'), ('b', 'in'), ('z', 'out')], [('g', 'AND2', ['z'], ['a', 'b'])])
         c = netlist.build(nl, 'verilog')
@@ -324,7 +338,7 @@ def replay(data):
     stim = {i: data['stim'][k] for k, i in enumerate(ins)}
     dvals = {tuple(k): v for k, v in data['dvals']}; tvals = {int(k): v for k, v in data['tvals']}
     try:
-        w = concrete_wave(data['cls'], c, data['caps'], stim, data.get('opts', {}), dvals, tvals)
+        w = concrete_wave(data['cls'], c, tuple(data['caps']) if isinstance(data['caps'], list) else data['caps'], stim, data.get('opts', {}), dvals, tvals)
     except Exception as e:
         return True, f'{type(e).__name__}: {e}'
     sn = c.s_nodes
@@ -393,3 +407,44 @@ def replay(data):
                 for x in fin:
                     if a is None or x < a[0] - 1e-4 or x > a[1] + 1e-4: return True, f'line {l.index}: transition at {x} outside static-timing window {a}'
     return False, 'no mismatch'
+
+
+# ------------------------------------------------------------------------------------------------ glue obligations (induction over the op list)
+
+def glue_jobs(tier, seed):
+    """the circuit-level lifting of the kernel lemmas relies on the schedule and memory-map obligations of C07/C08; they are re-discharged
+    here on a reduced corpus so that every timing check is self-contained"""
+    nls = netlist.g2_shapes() + netlist.g3_random(seed, 12 if tier == 'quick' else 60)
+    J = []
+    for j, nl in enumerate(nls):
+        for reuse, strip in ((False, False), (True, True), (True, False), (False, True)):
+            J.append((('nl', nl.to_json(), ('verilog', 'bench', 'lean')[j % 3]), reuse, strip))
+    return J
+
+
+def glue_job(item):
+    from . import tables
+    from kyupy.sim import SimOps
+    recipe, reuse, strip = item
+    rep = common.Report()
+    c = netlist.from_recipe(recipe)
+    name = recipe[1]['name']
+    import random as _r
+    caps = [4 * _r.Random(f'{name}/{k}').randint(1, 4) for k in range(len(c.lines) + 3)]
+    try: so = SimOps(c, c_caps=caps, c_caps_min=4, c_reuse=reuse, strip_forks=strip)
+    except Exception as e:
+        if 'too many indices' in str(e): return rep
+        rep.violation(f'glue/exception={type(e).__name__}', f'{name} c_reuse={reuse} strip_forks={strip}: SimOps raised {type(e).__name__}: {e}', {'mode': 'glue', 'recipe': recipe, 'reuse': reuse, 'strip': strip}); return rep
+    tb = tables.Tables(so, c, strip)
+    data = {'mode': 'glue', 'recipe': recipe, 'reuse': reuse, 'strip': strip}
+    for qn, qf in (('same-level-conflict', tb.q_same_level_conflict), ('operand-not-ready', tb.q_operand_not_ready), ('live-overlap', tb.q_live_overlap)):
+        r, wit, dt = qf()
+        rep.solver_s += dt; rep.counts['queries_' + str(r)] += 1; rep.counts['obligations'] += 1; rep.counts['glue_queries'] += 1
+        if r == z3.unsat: rep.counts['discharged'] += 1
+        elif r == z3.sat: rep.violation(f'glue/{qn}', f'{name} c_reuse={reuse} strip_forks={strip}: {qn}: {wit}', data)
+        else: rep.error(f'glue {name}: {r}')
+    probs = tb.alias_problems(caps, 4)
+    rep.counts['obligations'] += 1
+    if probs: rep.violation('glue/alias', f'{name} c_reuse={reuse} strip_forks={strip}: {probs[0]}', data)
+    else: rep.counts['discharged'] += 1
+    return rep
